@@ -52,6 +52,8 @@ def wepLookupAddr (h : Hdr) : Addr :=
     (`dot11->inner_pdu(decrypt(*raw, pw))` replaces — and frees — whatever hung below the Dot11Data,
     also when the result is null.) -/
 def wepDecrypt (ip : InnerParser) (pws : WepPasswords) (fr : Frame) : Out (Bool × Frame) :=
+  -- if (dot11 && dot11->wep())
+  if !fr.hdr.wep then .ok (false, fr) else
   match fr.inner.findRaw with
   | none => .ok (false, fr)
   | some pload =>
